@@ -53,7 +53,9 @@ Seeds ==
                           \cup {NewArgs("align", NUCLEOTIDS, p, <<Row(nA, <<65, 67>>), Row(nB, <<65, 67>>)>>) : p \in {0, 1, 2}}
                           \cup {NewArgs("bag", NUCLEOTIDS, p, <<Row(nA, <<65>>), Row(nC, <<65, 67, 97>>)>>) : p \in {0, 2}}
                           \cup {NewArgs("align", NUCLEOTIDS, 0, <<Row(<<32, 98, 46, 46, 99>>, <<65, 84, 71, 45, 45, 45>>), Row(nA, <<97, 116, 103, 78, 78, 78>>)>>),
-                                NewArgs("align", NUCLEOTIDS, 0, <<Row(nA, <<65, 67, 65, 45, 65>>), Row(nB, <<65, 84, 65, 45, 67>>)>>)},
+                                NewArgs("align", NUCLEOTIDS, 0, <<Row(nA, <<65, 67, 65, 45, 65>>), Row(nB, <<65, 84, 65, 45, 67>>)>>),
+                                \* names sharing a prefix (abcd1, abcd2, abxy3)
+                                NewArgs("align", NUCLEOTIDS, 0, <<Row(<<97, 98, 99, 100, 49>>, <<65, 67>>), Row(<<97, 98, 99, 100, 50>>, <<65, 71>>), Row(<<97, 98, 120, 121, 51>>, <<84, 71>>)>>)},
                     y \in {NewArgs("align", NUCLEOTIDS, 0, <<Row(nB, <<71, 71>>), Row(nC, <<45, 84>>)>>),
                            NewArgs("align", NUCLEOTIDS, 0, <<>>)}}
     [] Profile = "C04" ->
@@ -193,7 +195,13 @@ InstC06(h) ==
          \cup {Inst("ReverseComplementSequences", r, [names |-> ns]) : ns \in SeqsUpTo(Names3, 2)}
          : r \in 1..Len(h)}
 InstC01(h) ==
-  UNION {
+  {Inst("NewFromFasta", 0, [al |-> NUCLEOTIDS, rows |-> rs]) :
+      rs \in {<<Row(nA, <<65, 67, 71, 84>>), Row(nB, <<65, 67>>), Row(nC, <<84, 84, 84, 84>>)>>,       \* the odd one in the middle
+              <<Row(nA, <<65, 67, 71, 84>>), Row(nB, <<65, 67, 71, 71>>), Row(nC, <<84, 84>>)>>,         \* at the end
+              <<Row(nA, <<65, 67>>), Row(nB, <<65, 67, 71, 71>>), Row(nC, <<84, 84, 71, 71>>)>>,         \* the first one is the odd one
+              <<Row(nA, <<65, 67, 71, 84>>), Row(nB, <<65, 67, 71, 71>>), Row(nA, <<84, 84, 71, 65>>)>>, \* a repeated name
+              <<Row(nA, <<65, 67, 71, 84>>), Row(nB, <<65, 45, 71, 71>>)>>}}
+  \cup UNION {
     {Inst("Add", r, [name |-> n, seq |-> s]) : n \in {nA, nC}, s \in {<<65, 67>>, <<65>>, <<71, 71>>}}
     \cup {Inst("Rename", r, [map |-> m]) : m \in {<<[f |-> nA, t |-> nZ]>>, <<[f |-> nA, t |-> nB], [f |-> nB, t |-> nA]>>,
                                                  <<[f |-> nA, t |-> nB]>>, <<[f |-> nZ, t |-> nA]>>}}
@@ -203,6 +211,10 @@ InstC01(h) ==
           Inst("CloneSeqBag", r, NoArg), Inst("AutoAlphabet", r, NoArg), Inst("ShuffleSequences", r, [seed |-> 7]),
           Inst("ToUpper", r, NoArg), Inst("Unalign", r, NoArg)}
     \cup {Inst("TrimNames", r, [size |-> k]) : k \in {1, 2, 3, 5}}
+    \* a name map that already holds the short name of a LATER row (or of a name that is not there)
+    \cup {Inst("TrimNames", r, [size |-> 4, prev |-> pv]) :
+            pv \in {<<[f |-> <<97, 98, 99, 100, 50>>, t |-> <<97, 98, 48, 49>>]>>, <<[f |-> <<97, 98, 120, 121, 51>>, t |-> <<97, 98, 48, 50>>]>>,
+                    <<[f |-> <<122, 122, 122>>, t |-> <<97, 98, 48, 49>>]>>}}
     \cup {Inst("AppendSeqIdentifier", r, [id |-> i, right |-> b]) : i \in {<<>>, <<120>>}, b \in Bools}
     \cup {Inst("FilterLength", r, [min |-> a, max |-> b]) : a \in {-1, 1, 2, 3}, b \in {-1, 1, 2}}
     \cup {Inst("Translate", r, [frame |-> f, code |-> 0]) : f \in {-1, 0, 1}}
